@@ -10,7 +10,10 @@ pub mod c11;
 pub mod c12;
 pub mod c13;
 pub mod c17;
+pub mod c18;
 pub mod c14;
+pub mod c15;
+pub mod c16;
 pub mod c19;
 
 use std::cell::Cell;
